@@ -131,6 +131,46 @@ def run(R, tier, seed, driver_ok):
         Vp = V * (1 + 2.2e-16 * rng.randn(*V.shape))
         lines.append(f'itml_run {d} {len(V)} {len(pos)} {f2b(gamma)} {f2b(tol)} {max_iter} {f2b(u)} {f2b(l)} {bits(A0p)} {bits(Vp)}')
         meta.append(None)
+    # ---- hard constraints (infinite gamma, however it is spelled), a zero iteration budget, integer bounds with a zero
+    for rep in range(4 if tier == 'quick' else 24):
+        d = int(rng.randint(2, 5))
+        X, y = zoo.blobs(rng, d)
+        idx, yy = zoo.pairs_from(X, y, rng, n=int(rng.randint(4, 12)), repeats=False)
+        pairs = X[idx]
+        dist = np.sqrt(((pairs[:, 0] - pairs[:, 1]) ** 2).sum(1))
+        lo, hi = np.percentile(dist, [30, 70])
+        b = np.array([float(lo), float(hi)])
+        case = {'pairs': pairs, 'y': yy, 'bounds': b.tolist(), 'stream': 'hard-constraints / zero budget / integer bounds'}
+        R.case(('c11-hard', pairs.tobytes().hex()[:64]), True, sample={'d': d, 'n_pairs': len(yy), 'bounds': b.tolist()}, branch='infinite-gamma')
+        try:
+            with warnings.catch_warnings():
+                warnings.simplefilter('ignore')
+                fits = [ITML(gamma=g, max_iter=30).fit(pairs, yy, bounds=b.copy()) for g in (np.inf, float('inf'), np.float64('inf'), 1e300)]
+                Ms = [f.get_mahalanobis_matrix() for f in fits]
+                if not (np.array_equal(Ms[0], Ms[1]) and np.array_equal(Ms[0], Ms[2])):
+                    R.violation('ITML/infinite-gamma/spelling', 'gamma=np.inf, float("inf") and np.float64("inf") give different matrices (max diff '
+                                f'{max(np.abs(Ms[0] - Ms[1]).max(), np.abs(Ms[0] - Ms[2]).max()):.3g})', case)
+                if np.abs(Ms[1] - Ms[3]).max() > 1e-6 * np.abs(Ms[3]).max():
+                    R.violation('ITML/infinite-gamma/limit', f'gamma=inf differs from gamma=1e300 (relative {np.abs(Ms[1] - Ms[3]).max() / np.abs(Ms[3]).max():.3g})', case)
+                # zero iteration budget: the prior itself
+                store, orig, spy = capture_prior()
+                mi._initialize_metric_mahalanobis = spy
+                try:
+                    e0 = ITML(max_iter=0, prior=['identity', 'covariance', 'random'][rep % 3], random_state=rep).fit(pairs, yy)
+                finally:
+                    mi._initialize_metric_mahalanobis = orig
+                R.case(('c11-zero', pairs.tobytes().hex()[:64]), True, branch='zero-budget')
+                if np.abs(e0.get_mahalanobis_matrix() - store['A0']).max() > 1e-9 * np.abs(store['A0']).max():
+                    R.violation('ITML/zero-budget', 'max_iter=0 does not return the prior', case)
+                # integer bounds containing a zero mean what the same numbers as floats mean
+                hi_i = max(1, int(round(hi)) + 1)
+                R.case(('c11-intb', pairs.tobytes().hex()[:64]), True, branch='integer-bounds-with-zero')
+                ei = ITML(max_iter=20).fit(pairs, yy, bounds=np.array([0, hi_i]))
+                ef = ITML(max_iter=20).fit(pairs, yy, bounds=np.array([0.0, float(hi_i)]))
+                if not np.array_equal(ei.get_mahalanobis_matrix(), ef.get_mahalanobis_matrix()):
+                    R.violation('ITML/integer-bounds-with-zero', 'bounds=[0, k] as integers and as floats give different matrices', case)
+        except Exception as e:
+            R.violation(f'ITML/fit-raises-{type(e).__name__}', f'ITML.fit raised {type(e).__name__}: {str(e)[:200]} (hard constraints / zero budget / integer bounds stream)', case)
     R.count('fit-refused-nonpsd-iterate (rounding)', len(nonpsd)) if nonpsd else None
     if len(nonpsd) > max(2, reps // 10):
         R.violation('ITML/not-spd-systematic', f'{len(nonpsd)} of {reps} fits lost positive definiteness (NonPSDError)', nonpsd[0])
